@@ -16,6 +16,10 @@ use std::sync::{Arc, Mutex};
 pub trait Scalar: Float + Debug + Send + 'static {
     fn of(x: f64) -> Self;
     fn f(self) -> f64;
+    /// work meter of the scalar's arithmetic (0 for machine floats)
+    fn work() -> u64 {
+        0
+    }
 }
 impl Scalar for f64 {
     #[inline]
